@@ -202,6 +202,8 @@ def run_property(pid, tier, seed, jobs=None, write_baseline=False, only_units=No
     if unsupported:
         from . import registry as _reg
         tried = set()
+        found_any = False
+        pending_callers = []
         for (m, n), r in sorted(results.items()):
             if not r["unsupported"]:
                 continue
@@ -215,6 +217,30 @@ def run_property(pid, tier, seed, jobs=None, write_baseline=False, only_units=No
                 if conc and conc.get("found"):
                     rp, has_input = _write_replay(pid, o, conc)
                     violations.append((o, rp, has_input))
+                    found_any = True
+                else:
+                    pending_callers.append((fnq, n, r))
+        if not found_any and not violations and pending_callers:
+            # nothing found on the functions themselves: a defect may only show through a CALLER (two cooperating sites, a
+            # non-canonical intermediate value): run the families of the functions under contract that can reach them
+            try:
+                from .callgraph import graph
+                g = graph(REPO)
+                under = sorted({q.split("[")[0] for r_ in results.values() for q in r_["functions"]})
+                targets = {fnq.split("[")[0] for fnq, _, _ in pending_callers}
+                callers = [q for q in under if q not in tried and (g.reachable([q]) & targets)]
+            except Exception:
+                callers = []
+            for q in callers[:12]:
+                tried.add(q)
+                fnq, n, r = pending_callers[0]
+                o = dict(name=f"{q}/outside-subset[callee {fnq.rsplit('.', 1)[-1]}]", path="", status="unknown", backend="symex",
+                         detail="a callee left the supported subset: " + "; ".join(r["unsupported"])[:500], witness=None, unit=n, seconds=0.0)
+                conc = _concretise(pid, o, results, seed)
+                if conc and conc.get("found"):
+                    rp, has_input = _write_replay(pid, o, conc)
+                    violations.append((o, rp, has_input))
+                    break
 
     # ---- thorough tier: engine self-test by mutation + CPython differential cross-check (DESIGN section 6.3 / 6.4) ----
     self_test = None
